@@ -6,7 +6,7 @@ PROPERTY = "C04"
 CLAUSES = ["C04.deliver", "C04.order", "C04.urgent", "C04.detach", "C04.keep", "C04.refuse", "C04.started"]
 RULE = ("every process program of <= D executed instructions over {return, raise, timeout(0|1|2), wait/succeed a shared "
         "event, interrupt peer, interrupt self, join, spawn} where an interrupted process chooses between going on and "
-        "waiting for the same target again (one configuration uses the legal falsy causes 0, '' and ()); plus victims whose target is a condition event (all_of / any_of over a timeout and a shared event), interrupted 1-2 times at chosen instants, with or without a co-waiter, re-yielding the same condition object; non-trivial = at least one interrupt was delivered; distinct = distinct logs")
+        "waiting for the same target again (one configuration uses the legal falsy causes 0, '' and ()); plus victims whose target is a condition event (all_of / any_of over a timeout and a shared event), interrupted 1-2 times at chosen instants, with or without a co-waiter, re-yielding the same condition object; plus a victim referenced by nobody but the kernel, with <= 2 garbage collections placed between any kernel steps; non-trivial = at least one interrupt was delivered; distinct = distinct logs")
 ASSUMPTIONS = [
     "a created-but-not-started process is live: interrupting it must be accepted and delivered after its first statement",
     "detachment is observed through unique value tags: a process resumed by an abandoned target would receive a value that "
@@ -21,13 +21,87 @@ MAP2 = {"once": "C04.detach", "value": "C04.detach", "processed": "C04.keep", "t
 def plan(tier, seed):
     quick = tier == "quick"
     d = 6 if quick else 7
-    cfgs = [dict(depth=d, nproc=2), dict(depth=d - 1, nproc=3), dict(depth=d - 1, nproc=2, falsy=1), dict(kind="cond")]
+    cfgs = [dict(depth=d, nproc=2), dict(depth=d - 1, nproc=3), dict(depth=d - 1, nproc=2, falsy=1), dict(kind="cond"), dict(kind="gc")]
     return {"cfgs": cfgs, "budget": None, "bound": "D<=%d with 2 initial processes, D<=%d with 3; <=4 processes (reactions count as instructions)" % (d, d - 1)}
+
+
+def exec_gc(ch, cfg):
+    """nobody but the kernel knows the victim: the interrupter drops its handle right after interrupt(), and the garbage
+    collector may run between any two kernel steps (its timing is one more scheduler the program does not control)"""
+    import gc
+    from onl.sim import Environment, Interrupt
+    res = Result()
+    env = Environment()
+    log = []
+    wait_kind = ch.choose(3, lambda c: "victim waits on " + ["a private event", "timeout(5)", "a shared event that succeeds at t=3"][c], free=True)
+    when = ch.choose(3, lambda c: "interrupt at t=%d" % c, free=True)
+    twice = ch.choose(2, lambda c: "second interrupt at the same instant: %s" % bool(c), free=True)
+    shared = env.event()
+
+    def victim():
+        for _ in range(3):
+            try:
+                if wait_kind == 0:
+                    yield env.event()
+                elif wait_kind == 1:
+                    yield env.timeout(5)
+                    log.append(("timeout", env.now))
+                    return
+                else:
+                    v = yield shared
+                    log.append(("shared", env.now, v))
+                    return
+            except Interrupt as i:
+                log.append(("interrupt", env.now, i.cause))
+
+    def interrupter():
+        p = env.process(victim())
+        if when:
+            yield env.timeout(when)
+        else:
+            yield env.timeout(0)
+        p.interrupt("first")
+        if twice:
+            p.interrupt("second")
+        del p
+
+    def trigger():
+        yield env.timeout(3)
+        shared.succeed("sv")
+    env.process(interrupter())
+    env.process(trigger())
+    ncollect = 0
+    err = None
+    try:
+        steps = 0
+        while env.peek() < float("inf") and steps < 40:
+            if ncollect < 2 and ch.choose(2, lambda c: "garbage collection before kernel step %d: %s" % (steps, bool(c))):
+                gc.collect()
+                ncollect += 1
+            env.step()
+            steps += 1
+    except BaseException as e:  # noqa
+        err = (type(e).__name__, repr(e)[:100])
+    res.digest = (wait_kind, when, twice, tuple(log), err)
+    res.nontrivial = ncollect > 0
+    res.ev("C04.deliver", 1 + twice)
+    want = [("interrupt", when, "first")] + ([("interrupt", when, "second")] if twice else [])
+    if err:
+        res.bad("C04.deliver", "unreferenced-victim:run-raised-%s" % err[0], err[1])
+    elif log[:len(want)] != want:
+        res.bad("C04.deliver", "unreferenced-victim:interrupt-not-delivered", "victim saw %r, expected first %r" % (log, want))
+    elif wait_kind == 2 and log[len(want):] != [("shared", 3, "sv")]:
+        res.bad("C04.keep", "unreferenced-victim:lost-after-the-interrupt", "victim saw %r" % (log,))
+    elif wait_kind == 1 and log[len(want):] != [("timeout", when + 5)]:
+        res.bad("C04.keep", "unreferenced-victim:lost-after-the-interrupt", "victim saw %r" % (log,))
+    return res
 
 
 def execute(ch, cfg):
     if cfg.get("kind") == "cond":
         return exec_cond(ch, cfg)
+    if cfg.get("kind") == "gc":
+        return exec_gc(ch, cfg)
     k = KC.K(ch, OPS, cfg["depth"], nproc=cfg["nproc"], reaction=True, falsy_causes=bool(cfg.get("falsy"))).run()
     res = Result()
     res.digest = k.digest()
